@@ -2,6 +2,11 @@
 // Thin accessors for the tlsrec verification family (C42, C43, C45): no logic, only calls.
 package bfe_tls
 
+import (
+	"errors"
+	"net"
+)
+
 // VerifTlsrecRemovePadding calls removePadding and returns (bytes removed, good).
 func VerifTlsrecRemovePadding(payload []byte) (int, byte) {
 	out, good := removePadding(payload)
@@ -67,3 +72,50 @@ func VerifTlsrecUnmarshal(m interface{}, data []byte) bool {
 
 // VerifTlsrecEqual calls a.equal(b) (the package's own comparison).
 func VerifTlsrecEqual(a, b interface{}) bool { return a.(verifTlsrecEq).equal(b) }
+
+// VerifTlsrecKeyedPair returns a client-side and a server-side Conn over the two transports whose
+// record layers are keyed for (vers, suite) as after a completed handshake, without running one.
+// Needed for SSL 3.0 (no available standard peer speaks it; bfe_tls's own client refuses it): it
+// only sequences the package's own key schedule exactly like establishKeys + changeCipherSpec do
+// (keysFromMasterSecret, suite.cipher / suite.mac / suite.aead, prepareCipherSpec,
+// changeCipherSpec); no record-layer logic is copied.
+func VerifTlsrecKeyedPair(cconn, sconn net.Conn, vers, suiteID uint16, master, crand, srand []byte) (*Conn, *Conn, error) {
+	var suite *cipherSuite
+	for _, s := range cipherSuites {
+		if s.id == suiteID {
+			suite = s
+		}
+	}
+	if suite == nil {
+		return nil, nil, errors.New("verif: unknown cipher suite")
+	}
+	cMAC, sMAC, cKey, sKey, cIV, sIV := keysFromMasterSecret(vers, master, crand, srand, suite.macLen, suite.keyLen, suite.ivLen)
+	mk := func(key, iv, mac []byte, read bool) (interface{}, macFunction) {
+		if suite.aead != nil {
+			return suite.aead(key, iv), nil
+		}
+		return suite.cipher(key, iv, read), suite.mac(vers, mac)
+	}
+	client := &Conn{conn: cconn, config: &Config{}, isClient: true}
+	server := &Conn{conn: sconn, config: &Config{}}
+	for _, c := range []*Conn{client, server} {
+		c.vers, c.haveVers, c.cipherSuite = vers, true, suiteID
+	}
+	type half struct {
+		hc           *halfConn
+		key, iv, mac []byte
+		read         bool
+	}
+	for _, h := range []half{
+		{&client.out, cKey, cIV, cMAC, false}, {&server.in, cKey, cIV, cMAC, true},
+		{&server.out, sKey, sIV, sMAC, false}, {&client.in, sKey, sIV, sMAC, true},
+	} {
+		ci, m := mk(h.key, h.iv, h.mac, h.read)
+		h.hc.prepareCipherSpec(vers, ci, m)
+		if err := h.hc.changeCipherSpec(); err != nil {
+			return nil, nil, err
+		}
+	}
+	client.handshakeComplete, server.handshakeComplete = true, true
+	return client, server, nil
+}
